@@ -288,7 +288,11 @@ def oracle_schedulers(ck, rng):
             sc = ld.score([tmpl])[0]
             lnd = ld.construct_landscape(tmpl, max_shifts=1.0).compute()
             ap = ld.apply([np.mean, np.std]).to_numpy()
-        return a, avg, al.molecules.pos, al.molecules.rotator.as_quat(), np.asarray(sc), lnd, ap
+            # a loader derived after the original has been used (binning, head): numpy- and dask-backed must still agree
+            bn = ld.binning(2, compute=False)
+            bavg = np.asarray(bn.replace(output_shape=(3, 3, 3)).average())
+            hd = np.asarray(ld.head(3).asnumpy())
+        return a, avg, al.molecules.pos, al.molecules.rotator.as_quat(), np.asarray(sc), lnd, ap, bavg, hd
 
     def random_order_get(dsk, keys, **kw):
         from dask.local import get_sync
@@ -308,7 +312,7 @@ def oracle_schedulers(ck, rng):
                 img = tomo if ch is None else da.from_array(tomo, chunks=ch)
                 try:
                     got = results(img, kw)
-                    names = ["asnumpy", "average", "align.pos", "align.rot", "score", "landscape", "apply"]
+                    names = ["asnumpy", "average", "align.pos", "align.rot", "score", "landscape", "apply", "binning(2).average after use", "head(3).asnumpy after use"]
                     bad = [n_ for n_, x, y in zip(names, base, got) if not np.allclose(x, y, atol=1e-5, rtol=1e-5)]
                     detail = f"differs from the synchronous numpy run in {bad}" if bad else ""
                 except Exception as e:  # noqa
